@@ -261,6 +261,21 @@ def campaign(c):
                 if impl['outcome'][0] != 'success' or progdiff.pcap_records(impl['file'])[0][1][14:] != want:
                     c.violation('payload:join', '%s(%s) does not join its parts in order' % (fn, args), dict(src=src.decode()))
                 c.case(('join', fn, shape), dict(kind='join', fn=fn, parts=[p.decode() for p in shape]) if n == 3 and shape[0] == b'' and shape[1] == b'x' else None)
+    # ... and with parts that are, end in or start with (pieces of) the separator itself: a join adds one separator between two parts,
+    # whatever the parts hold
+    def jl(p_): return '"%s"' % p_.decode() if p_ and all(32 <= x < 127 and x not in (34, 124) for x in p_) else ('"|%s|"' % p_.hex() if p_ else '""')
+    SEPISH = [b'', b'x', b'a\r\n', b'\r\n', b'\r', b'\n', b'\r\nb']
+    for n in (2, 3):
+        for shape in itertools.product(SEPISH, repeat=n):
+            for fn, sep in (('text::crlflines', b'\r\n'), ('text::concat', b'')):
+                want = sep.join(shape)
+                args = ', '.join(('text::CRLF' if p_ == b'\r\n' and (k + n) % 2 else jl(p_)) for k, p_ in enumerate(shape))
+                src = (HEAD + 'eth::frame("|000000000001|", "|000000000002|", %s(%s));\n' % (fn, args)).encode()
+                impl, model = progdiff.run_both(c, src)
+                progdiff.compare(c, src, impl, model, 'join')
+                if impl['outcome'][0] != 'success' or progdiff.pcap_records(impl['file'])[0][1][14:] != want:
+                    c.violation('payload:join', '%s(%s) does not join its parts in order with one separator between two parts' % (fn, args), dict(src=src.decode()))
+        c.case(('join-sepish', n), dict(kind='join-separator-like-parts', n=n))
     # every single byte value, in text form where possible and hex form always
     for v in range(256):
         forms = ['"|%02x|"' % v]
